@@ -51,11 +51,13 @@ Theorem C03_send_announce_total : forall p d q,
 Proof. exact send_announce_total. Qed.
 
 (** * The unbounded statement: NO host call sequence reaches a panic site.
-    For every valid set-up (at least one port, every port configuration within
-    the documented ranges) and EVERY sequence of host calls on the instance and
+    For every valid set-up (at least one and fewer than 65535 ports, every port
+    configuration within the documented ranges, instance configuration and
+    initial time properties representable on the wire: [setup_valid]) and EVERY sequence of host calls on the instance and
     its ports - frames of arbitrary octets and length, receive/transmit
     timestamps in [0, 2^63 ns), timer expirations, any TLV provider queue, BMCA
-    runs and run-time setting changes in any order - initialisation succeeds and
+    runs and run-time setting changes (clock quality: any representable value) in
+    any order ([event_valid]) - initialisation succeeds and
     every call returns normally.  [SRPanic] covers explicit panics, failed
     (debug) assertions and arithmetic overflow of every checked operation of
     the model.  Proved by the instance invariant [inst_inv] (Port/Inv*.v). *)
@@ -70,3 +72,12 @@ Proof. exact step_ok. Qed.
 Theorem C03_invariant_initial : forall s,
   setup_valid s -> exists i o, init s = Ok (i, o) /\ inst_inv i /\ no_master (i_ports i).
 Proof. exact init_ok. Qed.
+
+(** C03_main: the executable oracle ok_C03 accepts the model's own trace for
+    every valid set-up and every valid event list (ties the oracle that judges
+    implementation traces to the invariant proof). *)
+From SV Require Import Port.MainC03.
+Theorem C03_main : forall s es rel,
+  setup_valid s -> Forall event_valid es ->
+  exists i o, init s = Ok (i, o) /\ ok_C03 (mkCase s es rel (Some o) (run i es)) = true.
+Proof. exact ok_C03_model. Qed.
